@@ -231,11 +231,16 @@ _SAFE_BUILTINS = {
     "RuntimeError", "StopIteration", "AssertionError",
 }
 
-_EXT_MODULES = {"re": re, "string": string}
+import io as _io_mod
+import types as _types
+# only pure, side-effect free names of external modules are visible to interpreted code
+_EXT_MODULES = {"re": re, "string": string,
+                "io": _types.SimpleNamespace(DEFAULT_BUFFER_SIZE=_io_mod.DEFAULT_BUFFER_SIZE, SEEK_SET=0, SEEK_CUR=1, SEEK_END=2)}
 
 
 class Interp:
     MAX_DEPTH = 60
+    interpret_exception_init = True
 
     def __init__(self, model: Model, hooks: Hooks | None = None, decisions=None, fuel=400000):
         self.model = model
@@ -698,6 +703,14 @@ class Interp:
         o = Obj(ci)
         if "Exception" in ext:
             o.fields["args"] = tuple(args)
+            # the constructor is interpreted too: if building the message fails, that failure is what the caller sees
+            init = ci.find_method("__init__")
+            if init is not None and self.interpret_exception_init:
+                fuel = self.fuel
+                try:
+                    self._call_func(init, [o] + args, kwargs, node)
+                except Incomplete:
+                    self.fuel = max(self.fuel, fuel // 2)
             return o
         init = ci.find_method("__init__")
         if init is not None:
@@ -761,6 +774,14 @@ class Interp:
                 cls = self.eval(exc, env, frame)
                 args, kwargs = [], {}
             if isinstance(cls, ClassRef):
+                # the exception's own constructor runs first: if building the message fails, that failure propagates
+                init = cls.ci.find_method("__init__")
+                if init is not None and self.interpret_exception_init and "Exception" in cls.ci.external_bases():
+                    fuel = self.fuel
+                    try:
+                        self._call_func(init, [Obj(cls.ci)] + list(args), dict(kwargs), st)
+                    except Incomplete:
+                        self.fuel = max(self.fuel, fuel // 2)
                 e = PyRaise(cls.ci, tuple(args), st, where=frame.func)
             elif isinstance(cls, type) and issubclass(cls, BaseException):
                 e = PyRaise(cls, tuple(args), st, where=frame.func)
